@@ -1,6 +1,6 @@
 # Sizing and claim for C01 (well-formed text transcodes losslessly, every route)
 SPEC = {
-    "quick": {"rc_cases": 2000, "rc_procs": 12, "enum": True},
+    "quick": {"rc_cases": 3000, "rc_procs": 12, "enum": True},
     "thorough": {"rc_cases": 20000, "rc_procs": 12, "enum": True, "fuzz_secs": 0},
     "assumptions": [
         "harness/ref/ref_unicode.h encoders are the standard UTF-8/16/32 encodings",
